@@ -487,8 +487,6 @@ where
 			let rps = run_future_until_timeout(self.service.batch(batch_request), self.request_timeout).await?;
 
 			let mut batch_response = Vec::new();
-			let mut success = 0;
-			let mut failed = 0;
 
 			// Fill the batch response with placeholder values, one per request in the batch.
 			for _ in id_range.clone() {
@@ -501,13 +499,9 @@ where
 				let res = match ResponseSuccess::try_from(rp.into_inner()) {
 					Ok(r) => {
 						let v = serde_json::from_str(r.result.get()).map_err(Error::ParseError)?;
-						success += 1;
 						Ok(v)
 					}
-					Err(err) => {
-						failed += 1;
-						Err(err)
-					}
+					Err(err) => Err(err),
 				};
 
 				let maybe_elem = id
@@ -521,6 +515,10 @@ where
 					return Err(InvalidRequestId::NotPendingRequest(id.to_string()).into());
 				}
 			}
+
+			// Count what is handed back: an entry the reply did not answer is a failed one.
+			let failed = batch_response.iter().filter(|entry| entry.is_err()).count();
+			let success = batch_response.len() - failed;
 
 			Ok(BatchResponse::new(success, batch_response, failed))
 		}
